@@ -341,6 +341,7 @@ type buildOpts struct {
 	SnapLoad    bool
 	Session     *Vars  // a long-lived Project (watch mode): Run(Target), the sources change to these, Reload, Run(Then)
 	GCAfterRun  bool   // Run, then GC on the SAME loaded Project (a long-lived process: REPL, watch mode, library use)
+	ChildCwd    string // the build runs in a child process started in this subdirectory of the project
 	Interrupt   string // the build runs in a child process that dies just before emitting this file
 }
 
